@@ -374,6 +374,8 @@ pub struct Ctx {
     pub known_hits: Mutex<BTreeMap<String, u64>>,
     pub exhaustive_parts: Mutex<Vec<String>>,
     pub notes: Mutex<Vec<String>>,
+    /// reports of the coverage-guided stage (one object per fuzz target)
+    pub fuzz: Mutex<Vec<Value>>,
     pub started: Instant,
     pub stop: AtomicBool,
     replay_counter: AtomicU64,
@@ -397,6 +399,7 @@ impl Ctx {
             known_hits: Mutex::new(BTreeMap::new()),
             exhaustive_parts: Mutex::new(Vec::new()),
             notes: Mutex::new(Vec::new()),
+            fuzz: Mutex::new(Vec::new()),
             started: Instant::now(),
             stop: AtomicBool::new(false),
             replay_counter: AtomicU64::new(0),
@@ -684,6 +687,10 @@ impl Ctx {
         cov.insert("exhaustive".into(), json!(false));
         cov.insert("known_findings_reproduced".into(), json!(known.len()));
         cov.insert("notes".into(), json!(self.notes.lock().unwrap().clone()));
+        let fz = self.fuzz.lock().unwrap().clone();
+        if !fz.is_empty() {
+            cov.insert("fuzz".into(), json!(fz));
+        }
         cov.insert("inconclusive".into(), json!(inconclusive.clone()));
         cov.insert("profile".into(), json!(self.profile));
         cov.insert("threads".into(), json!(self.threads));
